@@ -451,10 +451,15 @@ def apply_params(sig, posargs, pokargs, varargs, kwoargs, varkwargs,
     parameters.extend(kwoargs.values())
     if varkwargs:
         parameters.append(varkwargs)
+    if sources is None:
+        # the result gets a provenance map of its own, like those of the
+        # other operations
+        return sig.replace(
+            parameters=parameters, sources=copy_sources(sig.sources),
+            _stacklevel=_stacklevel + 1)
     sig = sig.replace(parameters=parameters, _stacklevel=_stacklevel + 1)
-    if sources is not None:
-        sig = Signature._upgrade(sig, function, sources, _stacklevel=1)
-        sig.sources = sources
+    sig = Signature._upgrade(sig, function, sources, _stacklevel=1)
+    sig.sources = sources
     return sig
 
 
